@@ -99,10 +99,15 @@ def gen_universe(rng, n=None, heavy=0.08):
         keys['k%d' % i] = {'alg': alg, 'uid': [NAMES[i % len(NAMES)], rng.choice(['', 'c%d' % i]), 'k%d@example.org' % i],
                            'created_us': 1_400_000_000_000_000 + rng.choice([0, 0, 1, 86400 * 30, 86400 * 365 * 3]) * 1_000_000,
                            'usage': rng.choice(['CS', 'CS', 'C', 'CSE'])}
-    if rng.random() < 0.12:
+    if rng.random() < 0.15:
+        # a secret key made by another implementation: a user id that is not valid UTF-8 and/or an ECDH subkey whose KDF
+        # parameters are not PGPy's per-curve defaults
         k = keys['k0']
-        k['foreign_uid'] = 'Latin\xe9 N\xe4me <l@example.org>'.encode('latin-1').hex()
+        k['foreign_uid'] = rng.choice(['Latin\xe9 N\xe4me <l@example.org>'.encode('latin-1'), b'Foreign Key <f@example.org>']).hex()
         k['alg'] = 'ed25519'
+        if rng.random() < 0.6:
+            k['foreign_sub'] = {'curve': rng.choice(['cv25519', 'cv25519', 'ecdh_p256', 'ecdh_p384', 'ecdh_p521']),
+                                'kdf': rng.choice([[8, 7], [10, 9], [9, 8], [10, 7], [8, 9], [9, 9]])}
     return keys
 
 
@@ -192,7 +197,15 @@ class KeyHistory(object):
                 fu = tk.uids[0]
                 mu = MUid('uid', fu.pkt.body)
                 mu.sigs.append(self._rec(encode_packet(2, fu.sigs[0]), 'self', name, usage='CS'))
-                ctx.probe('foreign_non_utf8_uid')
+                try:
+                    fu.pkt.body.decode('utf-8')
+                except UnicodeDecodeError:
+                    ctx.probe('foreign_non_utf8_uid')
+                for fc in tk.subkeys:
+                    ms = MSub(fc.key.fingerprint, c['foreign_sub']['curve'])
+                    ms.sigs.append(self._rec(encode_packet(2, fc.sigs[0]), 'bind', name, usage='E'))
+                    mk.subs.append(ms)
+                    ctx.probe('foreign_ecdh_subkey')
             else:
                 mu = MUid('uid', k.userids[0].userid.encode('utf-8'))
                 mu.sigs.append(self._rec(bytes(k.userids[0].selfsig), 'self', name, usage=c.get('usage', 'CS')))
@@ -219,7 +232,13 @@ class KeyHistory(object):
         created = c['created_us'] // 1_000_000
         rs = seams.rnd().run_seed
         body, alg, sec = rkeys.gen_key('ed25519', created, seams.derive(rs, 'foreignkey:' + name, 'primary', 32))
-        tkb = bridge.build_ref_tkey(body, alg, sec, bytes.fromhex(c['foreign_uid']), created, secret_export=True)
+        subs = []
+        fs = c.get('foreign_sub')
+        if fs:
+            sb, salg, ssec = rkeys.gen_key(fs['curve'], created, seams.derive(rs, 'foreignkey:' + name, 'sub', 72 if fs['curve'] != 'cv25519' else 32),
+                                           kdf=fs['kdf'])
+            subs.append((sb, salg, ssec, 0x0C))
+        tkb = bridge.build_ref_tkey(body, alg, sec, bytes.fromhex(c['foreign_uid']), created, secret_export=True, subkeys=subs)
         return self.pgpy.PGPKey.from_blob(tkb)[0]
 
     def _unlocked(self, name):
